@@ -12,7 +12,8 @@ CU_RI = ["len(self._cu_cache) == len(self._cu_offsets_map)",
 
 # the unit cache lists are representation fields: only _cached_CU_at_offset touches them; CU_RI is the
 # object invariant (assumed for every DWARFInfo object, re-established by the owner, checked at yields)
-DWARFInfoT = Obj('DWARFInfo', _inv=CU_RI, _rep=('_cu_cache', '_cu_offsets_map'), debug_info_sec=SecT,
+from contracts._dwarf_shapes import InfoSecT, CUFull
+DWARFInfoT = Obj('DWARFInfo', _inv=CU_RI, _rep=('_cu_cache', '_cu_offsets_map'), debug_info_sec=InfoSecT,
                  _cu_cache=ListOf(CUT), _cu_offsets_map=ListOf(Nat),
                  config=Rec('DwarfConfig', little_endian=Bool, machine_arch=Str, default_address_size=Choice(4, 8)))
 CU_CACHE_SHAPES = {"self._cu_cache": ListOf(CUT), "self._cu_offsets_map": ListOf(Nat)}
@@ -101,7 +102,9 @@ class get_cu_containing:
     params = dict(self=DWARFInfoT, refaddr=Int)
     modifies = ["self._cu_cache", "self._cu_offsets_map"]      # reads the offsets map directly (bisect)
     havoc_shapes = CU_CACHE_SHAPES
-    returns = CUT
+    # the unit is returned with its own lazily built entry cache in view (object invariant DIE_RI of every CompileUnit);
+    # its section stream is the one .debug_info stream
+    returns = CUFull
     loops = {0: dict(invariant=CU_RI)}
     ensures = ["result.cu_offset <= refaddr",
                "refaddr < result.cu_offset + result.header.unit_length + (4 if result.structs.dwarf_format == 32 else 12)",
